@@ -1,7 +1,14 @@
 (** C17: refutations kept as findings (closed by vm_compute in proofs/CacheProofs.v). *)
 From Verif Require Import Json Outcome Cache CacheSpec CacheProofs.
-(** D41: the code as it is replaces a cache entry that is not loaded yet; the
-    schedule A0 A1 B0 B1 of two concurrent first requests loads twice. *)
+(** D41: the code before its repair replaced a cache entry that was not loaded
+    yet; the schedule A0 A1 B0 B1 of two concurrent first requests loads twice. *)
 Definition single_load_refuted := single_load_refuted_counterexample.
 Definition never_pending_cachettl := never_pending_cachettl_counterexample.
+(** D60: the code before its repair marked an entry in use with a BOOLEAN;
+    under a 1 ms TTL the release of one of two overlapping requests lets the
+    entry expire, a second instance is loaded while the first is still in use,
+    and a write acknowledged through the first is missing from the second. *)
+Definition boolean_pending := boolean_pending_counterexample.
+Definition boolean_pending_refutes := boolean_pending_replaces_instance_in_use.
 Definition premises_satisfiable := CacheExamples.hist_forever.
+Definition repaired_premises_satisfiable := CacheExamples.repaired_conf.
